@@ -153,7 +153,11 @@ def run_case(case):
               multi_channel=multi)
     d0, f0 = data.copy(order="C"), filt.copy(order="C")
     try:
-        if case["via"] == "func":
+        if case["via"] == "func" and sum(case["rs"]) % 4 == 1:
+            # documented signature (data, filt, mode, strides, multi_channel), positional
+            got = sp.convolve(data, filt, kw["mode"], kw["strides"], kw["multi_channel"])
+            A = None
+        elif case["via"] == "func":
             got = sp.convolve(data, filt, **kw)
             A = None
         else:
@@ -232,8 +236,14 @@ def run_case(case):
     dc, fc = dc * md, fc * mf
     try:
         out = sp.convolve(dc, fc, **kw)
-        da = sp.convolve_data_adjoint(y, fc, dshape, **kw)
-        fa = sp.convolve_filter_adjoint(y, dc, fshape, **kw)
+        if sum(case["rs"]) % 4 == 1:
+            da = sp.convolve_data_adjoint(y, fc, dshape, kw["mode"], kw["strides"],
+                                          kw["multi_channel"])
+            fa = sp.convolve_filter_adjoint(y, dc, fshape, kw["mode"], kw["strides"],
+                                            kw["multi_channel"])
+        else:
+            da = sp.convolve_data_adjoint(y, fc, dshape, **kw)
+            fa = sp.convolve_filter_adjoint(y, dc, fshape, **kw)
     except Exception as e:
         inn = _innermost(e)
         return violated(sig, "adjoint call raised %s: %s for a combination convolve accepts"
